@@ -30,9 +30,12 @@ Ops(nw) ==
                           \cup {Op("realloc", "", 0, <<>>, "p1", "", <<0>>, FALSE, d) : d \in Deltas}
                           \cup {Op("replace", "", 0, <<>>, "p1", "", <<0>>, FALSE, "")}
                           \cup {Op("control", "", 0, <<>>, "p1", "", <<0>>, f, d) : f \in BOOLEAN, d \in {"stop", "start", "restart"}}
+                          \cup {Op("copy", "", 0, <<>>, "p1", "", <<0>>, FALSE, d) : d \in {"ok", "missingpath", "missingid"}}
+                          \cup {Op("execute", "", 0, <<>>, "p1", "", <<0>>, FALSE, d) : d \in {"ok", "exit3", "execerr", "codeerr"}}
           ELSE {})
     \cup (IF nw >= 2 THEN {Op("remove", "", 0, <<>>, "p1", "", <<0, 1>>, TRUE, ""), Op("dissociate", "", 0, <<>>, "p1", "", <<1, 0>>, FALSE, ""),
-                           Op("realloc", "", 0, <<>>, "p1", "", <<1>>, FALSE, "bind"), Op("replace", "", 0, <<>>, "p1", "", <<0, 1>>, FALSE, "")}
+                           Op("realloc", "", 0, <<>>, "p1", "", <<1>>, FALSE, "bind"), Op("replace", "", 0, <<>>, "p1", "", <<0, 1>>, FALSE, ""),
+                           Op("copy", "", 0, <<>>, "p1", "", <<0, 1>>, FALSE, "ok")}
           ELSE {})
     \cup {[Op("lambda", "AUTO", c, <<>>, "p1", r, <<>>, FALSE, bh) EXCEPT !.stdin = si] :
               c \in {1, 2, 3}, r \in {"u", "b"}, bh \in {"ok", "exit3", "logserr", "waiterr", "attacherr"}, si \in BOOLEAN}
@@ -43,7 +46,7 @@ Ops(nw) ==
 Scenarios == {[nodes |-> Layout(lay), wls |-> WlSet(ws), op |-> o, mode |-> m, every |-> 1] :
                  lay \in Layouts, ws \in WlSets, o \in UNION {Ops(Len(WlSet(w))) : w \in WlSets}, m \in Modes \cup {"once"}}
 Valid(s) == /\ \A i \in 1..Len(s.op.targets) : s.op.targets[i] < Len(s.wls)
-            /\ (s.op.kind \in {"remove", "dissociate", "realloc", "replace", "control"} => Len(s.wls) > 0)
+            /\ (s.op.kind \in {"remove", "dissociate", "realloc", "replace", "control", "copy", "execute"} => Len(s.wls) > 0)
             /\ (s.mode = "crash" => s.op.kind = "create")
             /\ (s.op.kind = "lambda" <=> s.mode = "once")
             /\ (s.op.kind = "lambda" => (s.op.stdin => s.op.count = 1) /\ (s.op.delta = "attacherr" => s.op.stdin) /\ s.wls = <<>>)
